@@ -24,7 +24,11 @@ var (
 
 func loadKnown() {
 	knownMap = map[string]knownEntry{}
-	f, err := os.Open(filepath.Join(VerifDir(), "known_findings.txt"))
+	path := os.Getenv("VERIF_KNOWN_FILE") // set by vcheck: always the committed file, also when a scratch copy of the tree is checked
+	if path == "" {
+		path = filepath.Join(VerifDir(), "known_findings.txt")
+	}
+	f, err := os.Open(path)
 	if err != nil {
 		return
 	}
